@@ -29,7 +29,14 @@ JsonRpcConnection::Ptr l_Cl[NEP + 1];
 ApiListener::Ptr l_L;
 boost::asio::io_context *l_Io = nullptr;
 bool l_Init = false;
-long l_Probe = 0;
+long l_Probe = 0, l_Fwd = 0;
+
+ConfigObject::Ptr SecObjOf(const std::string& k)
+{
+	if (k == "-" || k.empty()) return nullptr;
+	if (k[0] == 'z') return Zone::GetByName("rl-" + k);          // zp zm za zb zc zg : the zone itself
+	return ConfigObject::GetObject("CheckCommand", "rl-" + k);    // op om oa ob oc og
+}
 
 std::string LogDir() { return std::string(ApiListener::GetApiDir().CStr()) + "log/"; }
 
@@ -63,6 +70,16 @@ void InitOnce()
 	l_Ep[6] = Endpoint::GetByName("rl-c1");
 	for (int i = 1; i <= NEP; i++) if (!l_Ep[i]) throw std::runtime_error("endpoint missing");
 	ApiFunction::Register("vf::probe", new ApiFunction([](const MessageOrigin::Ptr&, const Dictionary::Ptr&) -> Value { l_Probe++; return Empty; }));
+	// the handler of a cluster event that is relayed on (what e.g. event::CheckResult's handler ends in: RelayMessage(origin, secobj, message, true));
+	// the origin is the one JsonRpcConnection::MessageHandler built
+	ApiFunction::Register("vf::fwd", new ApiFunction([](const MessageOrigin::Ptr& origin, const Dictionary::Ptr& params) -> Value {
+		l_Fwd++;
+		Dictionary::Ptr ev = new Dictionary({ { "id", params->Get("id") } });
+		Dictionary::Ptr message = new Dictionary({ { "jsonrpc", "2.0" }, { "method", "vf::ev" }, { "params", ev } });
+		String sec = params->Get("sec");
+		l_L->SyncRelayMessage(origin, SecObjOf(sec.GetData()), message, true);
+		return Empty;
+	}));
 }
 
 void NewListener()
@@ -175,12 +192,7 @@ std::string EpState()
 	return r;
 }
 
-ConfigObject::Ptr SecObj(const std::string& k)
-{
-	if (k == "-" || k.empty()) return nullptr;
-	if (k[0] == 'z') return Zone::GetByName("rl-" + k);          // zp zm za zb zc zg : the zone itself
-	return ConfigObject::GetObject("CheckCommand", "rl-" + k);    // op om oa ob oc og
-}
+ConfigObject::Ptr SecObj(const std::string& k) { return SecObjOf(k); }
 
 std::string PathOf(const std::string& f) { return LogDir() + (f == "cur" ? "current" : f); }
 
@@ -233,8 +245,11 @@ VOP(rl_relay)
 	}
 	Dictionary::Ptr message = new Dictionary({ { "jsonrpc", "2.0" }, { "method", "vf::ev" }, { "params", params } });
 	size_t before = l_L->m_LogMessageCount;
-	bool rotatedBefore = false;
-	(void)rotatedBefore;
+	std::string conn, pos0, pos1;
+	for (int k = 1; k <= NEP; k++) {
+		conn += l_Ep[k]->GetConnected() ? "1" : "0";
+		pos0 += (k > 1 ? "," : "") + std::to_string((long)l_Ep[k]->GetLocalLogPosition());
+	}
 	l_L->SyncRelayMessage(nullptr, SecObj(a.str("sec", "-")), message, true);
 	Poll();
 	std::string live;
@@ -243,7 +258,11 @@ VOP(rl_relay)
 		std::string q = DumpQueue(i);
 		if (q != "-") { if (!live.empty()) live += ";"; live += std::to_string(i) + "=" + q; }
 	}
-	Out("rl_relay logged=" + std::to_string(l_L->m_LogMessageCount != before ? 1 : 0) + " live=" + (live.empty() ? "-" : live));
+	for (int k = 1; k <= NEP; k++)
+		pos1 += (k > 1 ? "," : "") + std::to_string((long)l_Ep[k]->GetLocalLogPosition());
+	// GetConnected() / GetLocalLogPosition() of every endpoint before and after (C12_position_only_moves_for_connected)
+	Out("rl_relay logged=" + std::to_string(l_L->m_LogMessageCount != before ? 1 : 0) + " live=" + (live.empty() ? "-" : live) +
+		" conn=" + conn + " pos0=" + pos0 + " pos=" + pos1);
 }
 
 // rl_conn e=ID [mirror=1] : the endpoint connects; flags as NewClientHandler/SyncClient set them; ReplayLog.
@@ -316,6 +335,39 @@ VOP(rl_recv)
 	long before = l_Probe;
 	l_Cl[i]->MessageHandler(message);
 	Out("rl_recv e=" + std::to_string(i) + " accepted=" + std::to_string(l_Probe - before));
+}
+
+// rl_from e=ID ts=N sec=<key|-> id=N [oz=<zone key>] : a cluster event with timestamp ts (and, from the HA peer of our own
+// zone, an originZone member) arrives from the (connected) peer; its handler relays an event about <sec> on.
+// Printed: what MessageHandler/SyncRelayMessage did, and GetConnected()/GetLocalLogPosition() of every endpoint before and after.
+VOP(rl_from)
+{
+	int i = a.num("e");
+	if (!l_Cl[i]) return;
+	for (int k = 1; k <= NEP; k++) if (l_Cl[k]) { Poll(); l_Cl[k]->m_OutgoingMessagesQueue.clear(); }
+	std::string conn, pos0, pos1;
+	for (int k = 1; k <= NEP; k++) {
+		conn += l_Ep[k]->GetConnected() ? "1" : "0";
+		pos0 += (k > 1 ? "," : "") + std::to_string((long)l_Ep[k]->GetLocalLogPosition());
+	}
+	Dictionary::Ptr params = new Dictionary({ { "id", (double)a.num("id") }, { "sec", String(a.str("sec", "-")) } });
+	Dictionary::Ptr message = new Dictionary({ { "jsonrpc", "2.0" }, { "method", "vf::fwd" }, { "params", params }, { "ts", (double)a.num("ts") } });
+	std::string oz = a.str("oz", "-");
+	if (oz != "-") message->Set("originZone", String("rl-" + oz));
+	size_t before = l_L->m_LogMessageCount;
+	long fwd = l_Fwd;
+	l_Cl[i]->MessageHandler(message);
+	Poll();
+	std::string live;
+	for (int k = 1; k <= NEP; k++) {
+		if (!l_Cl[k]) continue;
+		std::string q = DumpQueue(k);
+		if (q != "-") { if (!live.empty()) live += ";"; live += std::to_string(k) + "=" + q; }
+	}
+	for (int k = 1; k <= NEP; k++)
+		pos1 += (k > 1 ? "," : "") + std::to_string((long)l_Ep[k]->GetLocalLogPosition());
+	Out("rl_from e=" + std::to_string(i) + " accepted=" + std::to_string(l_Fwd - fwd) + " logged=" + std::to_string(l_L->m_LogMessageCount != before ? 1 : 0) +
+		" live=" + (live.empty() ? "-" : live) + " conn=" + conn + " pos0=" + pos0 + " pos=" + pos1);
 }
 
 // rl_timer : ApiTimerHandler (clean-up + log position emission)
